@@ -233,4 +233,12 @@ def pmap(fn, items, jobs=None, chunksize=1):
     ctx = multiprocessing.get_context("fork")
     _pool_init = _limits
     with ctx.Pool(jobs, initializer=_pool_init) as pool:
-        return pool.map(_wrap, [(fn, it) for it in items], chunksize=chunksize)
+        if not os.environ.get("VERIF_PROGRESS"):
+            return pool.map(_wrap, [(fn, it) for it in items], chunksize=chunksize)
+        # progress on stderr (VERIF_PROGRESS=1): long thorough runs are otherwise silent for an hour
+        out = []; t0 = time.time()
+        for k, r in enumerate(pool.imap(_wrap, [(fn, it) for it in items], chunksize=chunksize)):
+            out.append(r)
+            if (k + 1) % max(1, len(items) // 40) == 0:
+                print(f"[progress] {k + 1}/{len(items)} items, {time.time() - t0:.0f}s", file=sys.stderr, flush=True)
+        return out
